@@ -22,7 +22,8 @@ RULE = (
     "(global step, victim) pre-emptions, or a seeded per-opcode switch probability of 0.1..50 %, or a 'stores' schedule "
     "that switches with 10..70 % probability right before every opcode writing an attribute / item / global and rarely "
     "elsewhere - races need a switch between two writes). real: the real ThreadPool "
-    "under sys.setswitchinterval(1e-6), 40 repetitions per case. Oracle: every output array is bit-for-bit (bytes, "
+    "under sys.setswitchinterval(1e-6), 40 repetitions per case. In three cases of seven the cube under test has a past: an earlier pooled evaluation aborted by the "
+    "caller's check_interrupt callback at consultation 0/1/2/5 and caught. Oracle: every output array is bit-for-bit (bytes, "
     "dtype, shape) the serial result of a fresh twin cube and fresh function objects. Non-trivial (det) = at least "
     "2 workers alive and at least one pre-emption actually taken; (real) = pool size >= 2 with >= 3 sub-cubes. "
     "det_large / real_large: the same with 1 100..4 200 rows (stored as a recipe) so that size thresholds inside the "
@@ -67,6 +68,9 @@ def cases(draw, tier, mode):
         for f in case["funcs"][1:]:
             f["agg"] = case["funcs"][0]["agg"]
     case["poolsize"] = draw(st.one_of(st.integers(2, 4), st.integers(2, 16), st.integers(1, 16)))
+    # the cube under test may have a past: an earlier pooled evaluation that the caller's check_interrupt callback
+    # aborted at its k-th consultation (the caller caught the exception and carries on with the same cube)
+    case["prior_interrupt"] = draw(st.sampled_from([None, None, None, 0, 1, 2, 5]))
     if mode == "det":
         prio = draw(st.permutations(list(range(16))))
         which = draw(st.integers(0, 4))
@@ -189,6 +193,36 @@ def build_call(case):
     return fresh, funcs
 
 
+class _Stop(Exception):
+    pass
+
+
+def give_it_a_past(cube, funcs, k, poolsize):
+    """An earlier pooled evaluation of `cube`, aborted by check_interrupt at consultation k and caught by the caller."""
+    import threading
+
+    seen = [0]
+    lock = threading.Lock()
+
+    def callback():
+        with lock:
+            n = seen[0]
+            seen[0] += 1
+        if n == k:
+            raise _Stop()
+
+    cube.check_interrupt = callback
+    cube.parallel = True
+    cube.poolsize = poolsize
+    try:
+        cube.calculate(funcs)
+    except _Stop:
+        pass
+    finally:
+        cube.check_interrupt = None
+    return seen[0] > k
+
+
 def bits(res):
     import numpy
 
@@ -220,6 +254,10 @@ def check(case, rec):
                 for rep in range(sched["reps"]):
                     with libcall(what + " pooled (real threads)"):
                         cube, L = fresh()
+                        if case.get("prior_interrupt") is not None and rep == 0:
+                            _, L0 = fresh()
+                            if give_it_a_past(cube, L0, case["prior_interrupt"], case["poolsize"]):
+                                rec.note("cube with an interrupted pooled evaluation in its past")
                         cube.parallel = True
                         cube.poolsize = case["poolsize"]
                         got = [bits(r) for r in cube.calculate(L)]
@@ -240,10 +278,15 @@ def check(case, rec):
             pools.append(p)
             return p
 
+        with libcall(what + " pooled (DetPool)"):
+            cube, L = fresh()
+            if case.get("prior_interrupt") is not None:
+                _, L0 = fresh()
+                if give_it_a_past(cube, L0, case["prior_interrupt"], case["poolsize"]):
+                    rec.note("cube with an interrupted pooled evaluation in its past")
         build.POOL_FACTORY[0] = factory
         try:
             with libcall(what + " pooled (DetPool)"):
-                cube, L = fresh()
                 cube.parallel = True
                 cube.poolsize = case["poolsize"]
                 got = [bits(r) for r in cube.calculate(L)]
